@@ -4,7 +4,8 @@
    process_action bodies; can_move is the independent specification computed from the agents'
    positions alone; ginv is the consistency invariant of C03. *)
 From Coq Require Import ZArith List Bool Arith Lia.
-From Abm Require Import Base.Sx Grid.Overlap Grid.Grid Grid.Move Proofs.Grid_proofs Proofs.Move_proofs Proofs.Init_proofs.
+From Abm Require Import Base.Sx Grid.Overlap Grid.Grid Grid.Move Proofs.Grid_proofs Proofs.Move_proofs Proofs.Init_proofs
+  Proofs.GridChk_proofs Proofs.MoveChk_proofs.
 Import ListNotations.
 Open Scope Z_scope.
 
@@ -76,6 +77,68 @@ Theorem C12_init_inv : forall rows cols ov ags,
 Proof. exact init_state_inv_table. Qed.
 Print Assumptions C12_init_inv.
 
+(* ---- the executable checker accepts the model's own behaviour ---------------------------------- *)
+(* drift_wf s ops: every drift operation in ops is issued for an agent that has an orientation
+   (the drift actor's precondition; an agent without one raises in the implementation). *)
+
+(* the cell/position consistency test of the checker holds in every state satisfying the invariant *)
+Theorem C12_cells_consistent : forall s, ginv s -> cells_consistent s = true.
+Proof. exact ginv_cells_consistent. Qed.
+Print Assumptions C12_cells_consistent.
+
+(* and what it establishes when it answers true: every cell of the grid holds exactly, without
+   repetition, the active agents positioned there *)
+Theorem C12_cells_consistent_sound : forall s, cells_consistent s = true ->
+  forall p, inside s p = true ->
+    NoDup (cell_get (g_cells s) p) /\
+    forall j, In j (cell_get (g_cells s) p) <->
+              exists b, agent s j = Some b /\ a_active b = true /\ a_pos b = Some p.
+Proof. exact cells_consistent_sound. Qed.
+Print Assumptions C12_cells_consistent_sound.
+
+(* the checker's agent comparison accepts equal agent lists only *)
+Theorem C12_agents_eqb_exact : forall l m, arecs_eqb l m = true <-> l = m.
+Proof. exact arecs_eqb_eq. Qed.
+Print Assumptions C12_agents_eqb_exact.
+
+(* snapshot codec: a snapshot read back is the state up to the representation of the cell
+   dictionaries (same agents, dimensions, table; same dictionary in every cell of the grid) *)
+Theorem C12_snapshot_roundtrip : forall s0 s,
+  g_rows s = g_rows s0 -> g_cols s = g_cols s0 -> g_ov s = g_ov s0 ->
+  length (g_agents s) = length (g_agents s0) ->
+  exists s', dec_snapshot s0 (enc_snapshot s) = Some s' /\
+    (g_rows s' = g_rows s /\ g_cols s' = g_cols s /\ g_ov s' = g_ov s /\ g_agents s' = g_agents s) /\
+    forall p, In p (all_cells s) -> cell_get (g_cells s') p = cell_get (g_cells s) p.
+Proof. exact dec_enc_snapshot. Qed.
+Print Assumptions C12_snapshot_roundtrip.
+
+(* one operation: the checker clause for (state, operation, model result, model state after) is 0 *)
+Theorem C12_chk_mop_model : forall s o, ginv s -> drift_ok s o ->
+  chk_mop s (state_after s (do_mop s o)) o (enc_mres (do_mop s o)) = 0.
+Proof. exact chk_mop_model. Qed.
+Print Assumptions C12_chk_mop_model.
+
+(* every sequence, on decoded states *)
+Theorem C12_chk_model_states : forall ops s, ginv s -> drift_wf s ops ->
+  chk_mops_st s ops (mops_trace s ops) = 0.
+Proof. exact chk_mops_st_model. Qed.
+Print Assumptions C12_chk_model_states.
+
+(* every sequence, through the snapshot codec: the extracted checker loop applied to the records
+   the extracted model emits *)
+Theorem chk_C12_model : forall s0 ops, ginv s0 -> drift_wf s0 ops ->
+  chk_mops s0 s0 ops (run_mops s0 ops) = 0.
+Proof. exact chk_C12_model. Qed.
+Print Assumptions chk_C12_model.
+
+(* the wire entry points: run_chk_C12 on (input, run_moves input) answers 1 *)
+Theorem C12_run_chk_model : forall xin s0 xops ops,
+  dec_grid_input xin = Some (s0, xops) -> all_some (map dec_mop xops) = Some ops ->
+  ginv s0 -> drift_wf s0 ops ->
+  run_chk_C12 (L [xin; run_moves xin]) = A 1.
+Proof. exact run_chk_C12_model. Qed.
+Print Assumptions C12_run_chk_model.
+
 (* ---- non-vacuity: a 2x3 grid, two agents that may not overlap, one that may ------------------ *)
 Definition ex_agent (e : Z) (p : cell) (o : Z) : arec :=
   {| a_enc := e; a_pos := Some p; a_health := HD; a_active := true; a_ammo := None;
@@ -109,3 +172,10 @@ Example C12_nonvacuous_moves :
 Proof.
   repeat split; try (vm_compute; reflexivity); eexists; vm_compute; repeat split; reflexivity.
 Qed.
+
+Definition ex_ops : list mop := [ODrift 0 2; ODrift 1 4; OCross 2 1; OFree 0 (5, 5); OCross 1 9; ODrift 2 0].
+Example C12_nonvacuous_chk :
+  drift_wf ex_state ex_ops /\ chk_mops ex_state ex_state ex_ops (run_mops ex_state ex_ops) = 0
+  /\ map (fun r => enc_mres (fst r)) (mops_trace ex_state ex_ops)
+     = [A 1; A 1; A 1; A 0; L [A (-1); A 1]; A 1].
+Proof. split; [apply drift_wf_all; reflexivity|]. split; vm_compute; reflexivity. Qed.
